@@ -398,6 +398,18 @@ theorem C13_filters_called_with_request_ctx :
 /-- The list handlers write no server-level state (nowhere to cache a filtered list). -/
 theorem C13_list_handlers_stateless : Mcp.Gen.cfListFieldWrites = [] := by decide
 
+/-- The slice a list filter receives is made for that call by the getter (which keeps no reference to it: a filter
+    that compacts or sorts its input in place cannot touch another request's view), the slices of the list results
+    are made inside the handler call, and no `sync.Pool` is involved (no memory that is still referenced by an
+    unsent answer is handed to another request). -/
+theorem C13_list_memory_per_request :
+    Mcp.Gen.cfListSnapshots =
+        [(t!"promptManager.handleListPrompts", t!"promptManager.getPrompts", t!"fresh"),
+         (t!"resourceManager.handleListResources", t!"resourceManager.getResources", t!"fresh"),
+         (t!"toolManager.handleListTools", t!"toolManager.getTools", t!"fresh")] ∧
+      Mcp.Gen.cfListResults.all listFactFresh = true ∧ Mcp.Gen.cfListResults.length = 3 ∧
+      Mcp.Gen.cfListPoolUses = [] := by decide
+
 /-- `handlePost` folds the context functions first-registered-first over the request and hands the result (and
     nothing else) to the request / notification / response branches; `WithHTTPContextFunc` appends. -/
 theorem C13_fold_in_registration_order :
